@@ -293,6 +293,19 @@ def run(ctx: core.Ctx):
         dec = rng.choice([3, 3, 3, 0, 1, 2, 4, 6, 9])
         cases.append({"engine": fll.rengine(rng, dec, j), "dec": dec, "origin": f"seeded-{j}", "approx": False})
         reals.append(None)
+    for j in range(6 if ctx.quick else 40):      # Function terms with many variables of their own (a mapping of 5 to 12 entries in the code)
+        dec = rng.choice([3, 1, 6])
+        e_ = fll.rengine(rng, dec, 1000 + j)
+        target = (e_["outputs"] or e_["inputs"])
+        if not target:
+            continue
+        target[0]["terms"] = target[0]["terms"] + [fll.poly_term(rng, "poly", dec, rng.choice([5, 6, 7, 9, 12]))]
+        cases.append({"engine": e_, "dec": dec, "origin": f"seeded-poly-{j}", "approx": False})
+        reals.append(None)
+    for j in range(3 if ctx.quick else 30):       # wide engines: more entries in every list than a printer's size limit would pass silently
+        dec = rng.choice([3, 2, 6])
+        cases.append({"engine": fll.rengine(rng, dec, 2000 + j, wide=True), "dec": dec, "origin": f"seeded-wide-{j}", "approx": False})
+        reals.append(None)
     for name, eng in c14.example_engines(fl):
         with fl.settings.context(decimals=3):
             cases.append({"engine": fll.project(fl, eng, 3), "dec": 3, "origin": name, "approx": False})
